@@ -645,7 +645,7 @@ Proof.
   match goal with |- specA _ _ (match ?b with _ => _ end) => assert (HB : specA' (fun _ => True) b) end.
   { eapply specA_bind; [apply specA_of, (strspn_spec v s n Hs); exact Ha|]. intros i _.
     destruct (i =? length).
-    - apply specA_of, explicit_spec; lia.
+    - eapply specA_bind; [apply specA_of, explicit_spec; lia|]. intros a _. destruct (_ && _); exact I.
     - eapply interleave_spec; eauto. }
   match goal with |- specA _ _ (match ?b with _ => _ end) => destruct b end; simpl in *; auto.
 Qed.
